@@ -97,11 +97,19 @@ func TestVerifBounded_C18_Graphs(t *testing.T) {
 		if mask%3 == 0 {
 			failStart = mask % 4
 		}
+		// some graphs contain a module whose init function returns no service (only its side effects matter)
+		serviceless := -1
+		if mask%5 == 1 && cases%runtimeEvery != 0 {
+			serviceless = (mask / 5) % 4
+		}
 		mm := NewManager(log.NewNopLogger())
 		for i, n := range verifNames {
 			i, n := i, n
 			mm.RegisterModule(n, func() (services.Service, error) {
 				ev.add("init:" + n)
+				if i == serviceless {
+					return nil, nil
+				}
 				return services.NewBasicService(func(context.Context) error {
 					ev.add("start:" + n)
 					if i == failStart {
@@ -215,7 +223,7 @@ func TestVerifBounded_C18_Graphs(t *testing.T) {
 		}
 	next:
 	}
-	fmt.Printf("BOUNDED-CASES name=C18_Graphs n=%d distinct=%d bound=dependency edge sets over 4 modules (incl. self edges and cycle attempts; quick: all masks<=4096 + every 5th), target subsets, init count/order; run-time start/stop order and failing dependency on a sample (every %dth graph)\n", cases, cases, runtimeEvery)
+	fmt.Printf("BOUNDED-CASES name=C18_Graphs n=%d distinct=%d bound=dependency edge sets over 4 modules (incl. self edges and cycle attempts; quick: all masks<=4096 + every 5th), target subsets, init count/order (every 5th graph has one module whose init returns no service); run-time start/stop order and failing dependency on a sample (every %dth graph)\n", cases, cases, runtimeEvery)
 	if fails > 0 {
 		t.Fatalf("%d mismatches", fails)
 	}
